@@ -78,10 +78,14 @@ class VersionedSource:
         it = self._tl().fetch(start, end, reverse=reverse)
         if self.fail_after is None:
             return it
+        if self.fail_skip > 0:
+            self.fail_skip -= 1          # (a window with several gaps: the fault hits a LATER gap's fetch)
+            return it
         k, self.fail_after = self.fail_after, None
         return self._failing(it, k)
 
-    fail_after = None          # k: the next fetch raises after having yielded k events
+    fail_after = None          # k: the armed fetch raises after having yielded k events
+    fail_skip = 0              # fetches answered normally before the armed one
 
     @staticmethod
     def _failing(it, k):
@@ -117,7 +121,8 @@ def run_history(case):
         outs, logs, evt, failed = [], [], [], []
         for op in case["ops"]:
             if op[0] == "fault":
-                src.fail_after = op[1]           # the next source fetch fails after op[1] events
+                src.fail_after = op[1]           # the next source fetch (after op[2] good ones) fails after op[1] events
+                src.fail_skip = op[2] if len(op) > 2 else 0
             elif op[0] == "q":
                 _, a, b, rev = op
                 n0 = len(src.log)
@@ -298,7 +303,7 @@ class FaultFamily(CacheFamily):
     def __init__(self, prop, n_quick, n_thorough):
         super().__init__(prop, "oracle_C09", False, n_quick, n_thorough, "source_faults")
         self.rule = ("histories as in part histories, with the source armed to raise after yielding 0-2 events of "
-                     "its next fetch before 1-3 of the queries; the answered queries are judged against the source; "
+                     "its next, second or third fetch before 1-3 of the queries; the answered queries are judged against the source; "
                      "non-trivial = some query failed and a later one returned an interval")
 
     def gen(self, rng, tier, n):
@@ -306,7 +311,7 @@ class FaultFamily(CacheFamily):
             ops = []
             for o in case["ops"]:
                 if o[0] == "q" and rng.random() < 0.35:
-                    ops.append(["fault", rng.choice([0, 0, 1, 1, 2])])
+                    ops.append(["fault", rng.choice([0, 0, 1, 1, 2]), rng.choice([0, 0, 0, 1, 1, 2])])
                     ops.append(o)
                     if rng.random() < 0.7:
                         ops.append(list(o))            # the caller retries at once
